@@ -767,6 +767,11 @@ func runEntry(cfg Config, prog *symex.Program, e entryInfo, findings []Finding) 
 					clean = false
 				}
 			}
+			if clean && dependsOnFormatting(p.PC) {
+				// the path condition compares against fmt.Sprintf of symbolic arguments, an uninterpreted
+				// function here: the model's value for it is not the text the native run formats
+				clean = false
+			}
 			if clean {
 				rr, mm := router.CheckModel(p.PC, symsFor(p.Draws, p.PC))
 				if rr == smt.Sat {
@@ -854,4 +859,31 @@ func symsFor(draws []string, q []*smt.Term) []*smt.Term {
 		}
 	}
 	return out
+}
+
+// dependsOnFormatting: some conjunct mentions an application of the uninterpreted stand-in for fmt.Sprintf.
+func dependsOnFormatting(pc []*smt.Term) bool {
+	seen := map[int]bool{}
+	var walk func(t *smt.Term) bool
+	walk = func(t *smt.Term) bool {
+		if t == nil || seen[t.ID] {
+			return false
+		}
+		seen[t.ID] = true
+		if t.Op == "uf" && strings.HasPrefix(t.Name, "sprintf") {
+			return true
+		}
+		for _, a := range t.Args {
+			if walk(a) {
+				return true
+			}
+		}
+		return false
+	}
+	for _, c := range pc {
+		if walk(c) {
+			return true
+		}
+	}
+	return false
 }
